@@ -87,11 +87,16 @@ def main():
             return ['ok']
         except KeyError:
             return ['KeyError']
+        except Boom:
+            return ['Boom']
         except Exception as e:
             import traceback
             return ['exc', type(e).__name__, traceback.format_exc()[-1500:]]
 
-    def run(path_acts, op, k, sweep_at=None):
+    class Boom(Exception):
+        pass
+
+    def run(path_acts, op, k, sweep_at=None, fail_at=None):
         store, jar, t = build(path_acts)
         pm = paths(t)                               # id(node) -> path; everything is loaded and unchanged now
         nodes = {}
@@ -117,6 +122,8 @@ def main():
                 # ... and an explicit request to every node: a node that is in use (pinned) must refuse it
                 for n_ in list(nodes.values()):
                     n_._p_deactivate()
+            if fail_at is not None and len(log) - 1 == fail_at:
+                raise Boom('comparison %d' % fail_at)
         keys.HOOK[0] = hook
         try:
             res = call(t, op, k)
@@ -153,7 +160,7 @@ def main():
                     mism.append(dict(where, kind='comparison-events', model=want, real=log))
                 if left:
                     mism.append(dict(where, kind='pinned-after-return', real=left))
-                for j in range(len(log)):
+                for j in (range(len(log)) if job.get('sweeps', True) else ()):
                     res2, log2, left2, pj2 = run(path_acts, op, k, sweep_at=j)
                     counts['sweeps'] += 1
                     if res2 != res or pj2 != pj:
@@ -166,6 +173,16 @@ def main():
                         mism.append(dict(where, kind='sweep-changes-comparisons', sweep_at=j, model=[x[:3] for x in log], real=[x[:3] for x in log2]))
                     if left2:
                         mism.append(dict(where, kind='pinned-after-return', sweep_at=j, real=left2))
+                # C05 (and C14): the j-th comparison raises - the exception reaches the caller, the tree is as before, and
+                # none of the nodes stays pinned (every one of them can still be evicted)
+                for j in (range(len(log)) if job.get('faults', True) else ()):
+                    res3, log3, left3, pj3 = run(path_acts, op, k, fail_at=j)
+                    counts['faults'] = counts.get('faults', 0) + 1
+                    w3 = dict(where, fail_at=j)
+                    if res3 != ['Boom']:
+                        mism.append(dict(w3, kind='exception-lost', real=res3))
+                    if left3:
+                        mism.append(dict(w3, kind='pinned-after-exception', real=left3))
                 if len(mism) > 30:
                     break
         # range searches, minKey / maxKey and range iteration: the comparison sequence is not specified, but a
@@ -191,6 +208,8 @@ def main():
                     return ['v', getattr(t, kind)(K(lo)).v]
                 except ValueError:
                     return ['ValueError']
+                except Boom:
+                    return ['Boom']
                 except Exception as e:
                     return ['exc', type(e).__name__]
             saved = call
@@ -215,7 +234,7 @@ def main():
                         mism.append(dict(where, kind='comparison-events', model=want, real=log))
                 if left:
                     mism.append(dict(where, kind='pinned-after-return', real=left))
-                for j in range(len(log)):
+                for j in (range(len(log)) if job.get('sweeps', True) else ()):
                     res2, log2, left2, pj2 = run(path_acts, 'query', 0, sweep_at=j)
                     counts['sweeps'] += 1
                     if res2 != res or pj2 != pj:
@@ -224,6 +243,15 @@ def main():
                         mism.append(dict(where, kind='sweep-changes-comparisons', sweep_at=j, model=[x[:3] for x in log], real=[x[:3] for x in log2]))
                     if left2:
                         mism.append(dict(where, kind='pinned-after-return', sweep_at=j, real=left2))
+                for j in (range(len(log)) if job.get('faults', True) else ()):
+                    res3, log3, left3, pj3 = run(path_acts, 'query', 0, fail_at=j)
+                    counts['faults'] = counts.get('faults', 0) + 1
+                    if res3 != ['Boom']:
+                        mism.append(dict(where, kind='exception-lost', fail_at=j, real=res3))
+                    if left3:
+                        mism.append(dict(where, kind='pinned-after-exception', fail_at=j, real=left3))
+                    if pj3 != pj:
+                        mism.append(dict(where, kind='query-fault-changes-tree', fail_at=j, model=pj, real=pj3))
             finally:
                 call = saved
             if len(mism) > 30:
